@@ -84,6 +84,8 @@ def configs(tier, eps):
         # destination names a careless path computation mishandles: glob metacharacters in the file name, and a path
         # through a symlinked directory followed by ".." (both absent: the fault-free and faulty runs must behave as
         # for any absent destination)
+        out.append({"ep": 3, "overwrite": True, "ns": 1, "na": 0, "dst": "hardlink"})
+        out.append({"ep": 3, "overwrite": True, "ns": 1, "na": 0, "dst": "hardlink-base"})
         out.append({"ep": 3, "overwrite": True, "ns": 1, "na": 0, "dst": "brackets"})
         out.append({"ep": 3, "overwrite": True, "ns": 1, "na": 0, "dst": "dotdot"})
     if 4 in eps:
@@ -148,7 +150,7 @@ def run(ck: vlib.Check):
         if drv_ok:
             key = (j["ep"], j["overwrite"] is True, j["ns"], j["na"], j["dst"])
             if key not in cache:
-                cache[key] = model_runs(j["ep"], j["overwrite"] is True, j["ns"], j["na"], dst=(j["dst"] == "existing"))
+                cache[key] = model_runs(j["ep"], j["overwrite"] is True, j["ns"], j["na"], dst=(j["dst"] in ("existing", "hardlink", "hardlink-base")))
             tr = () if j["step"] < 0 else ((j["step"], j["kind"]),)
             m = cache[key].get(tr)
             p = project(obs)
